@@ -59,7 +59,7 @@ structure R23Trial (α : Type) (n : Nat) where
 def rk23Trial {σ : Type} (P : R23Params α n) (f : Rhs α n) (s : R23State σ α n) (h : α) : R23Trial α n :=
   let o := Gen.Rk23.stages (f := fun j => f (s.m.ncalls + j)) (y := s.y) (h := h) (k1 := s.k1) (x := s.x)
   let ye := (Gen.Rk23.errvec (h := h) (k1 := s.k1) (k2 := o.k2) (k3 := o.k3) (k4 := o.k4)).ye
-  { o := o, m := s.m.bump o.calls 3, err := Gen.Rk23.errnorm (atol := P.atol) (rtol := P.rtol) (yt := o.yt) (y := s.y) (ye := ye) }
+  { o := o, m := s.m.bump o.calls 3, err := finiteGuard o.yt (Gen.Rk23.errnorm (atol := P.atol) (rtol := P.rtol) (yt := o.yt) (y := s.y) (ye := ye)) }
 
 /-- "Adjust step size" after acceptance -/
 def rk23NextStep (P : R23Params α n) (h err : α) : α :=
